@@ -102,21 +102,22 @@ Proof. exact self_accepted_closed. Qed.
 Print Assumptions C13_self_accepted.
 
 (* The premise holds of the library's decoder (the C01 model of build_ssdp_packet / decode_ssdp_packet, tied to
-   ssdp.py by the C01 correspondence check): for every URL oracle, every unscoped source address and any
-   local/remote address tokens, the datagram built from a server start line and a wire-safe header dict decodes
+   ssdp.py by the C01 correspondence check): for every URL oracle and source address such that the receiver keeps
+   LOCATION as sent ([location_kept]: the address carries no scope id, or the oracle reports no IPv6 link-local host -
+   by C01_location_kept the only case in which the decoder rewrites it) and any local/remote address tokens, the datagram built from a server start line and a wire-safe header dict decodes
    to a map that is a well-formed CaseInsensitiveDict and reads like decoded_view under every name the tracker
    consults (the sent headers, _udn, _timestamp). *)
 Theorem C13_decode_premise_real :
   forall (url_of : pystr -> C01.Model.url_info) (local_tok remote_tok : N) (a : C01.Model.addr),
-  C01.Model.a_v6 a = None -> decode_premise (real_dec url_of local_tok remote_tok a).
-Proof. exact real_dec_premise. Qed.
+  location_kept url_of a -> decode_premise (real_dec url_of local_tok remote_tok a).
+Proof. exact real_dec_premise_kept. Qed.
 Print Assumptions C13_decode_premise_real.
 
 (* hence: every message the server emits, built by build_ssdp_packet and decoded by decode_ssdp_packet, is
    accepted by the library's own listener as C13_self_accepted states *)
 Theorem C13_self_accepted_real :
   forall (url_of : pystr -> C01.Model.url_info) (local_tok remote_tok : N) (a : C01.Model.addr),
-  C01.Model.a_v6 a = None ->
+  location_kept url_of a ->
   forall (cfg : config) (m : msg), cfg_ok cfg = true -> emitted cfg m ->
   forall (ipver : pystr -> option N) (now : Z) (t : tracker), (0 <= now <= DT_MAX)%Z -> C03.Inv.Inv t ->
   let D := decoded_view (msg_items cfg m) now in
@@ -136,7 +137,7 @@ Theorem C13_self_accepted_real :
   end.
 Proof.
   intros url_of lt rt a Ha cfg m Hc He ipver now t Hnow Hi.
-  destruct (self_accepted_closed _ (real_dec_premise url_of lt rt a Ha) cfg m Hc He ipver now t Hnow Hi)
+  destruct (self_accepted_closed _ (real_dec_premise_kept url_of lt rt a Ha) cfg m Hc He ipver now t Hnow Hi)
     as [_ [Hd Hm]].
   split; [exact Hd|]. destruct (m_kind m); [|destruct (str_eqb (m_nts m) nts_byebye)]; apply Hm.
 Qed.
